@@ -20,7 +20,7 @@ import json
 import os
 
 from .. import cfg, flow, errflow, query, arms
-from ..facts import op_place, norm_path, VERIF
+from ..facts import op_place, const_int, norm_path, VERIF
 
 OUT_WRITES = ("minijinja::output::Output::write_str", "minijinja::output::Output::write_fmt",
               "<minijinja::output::Output<'_> as core::fmt::Write>::write_str",
@@ -205,26 +205,68 @@ def const_eval(f, op, depth=0):
     return vals.pop() if len(vals) == 1 else None
 
 
+def _promoted_range(fn, const):
+    """(lo, hi) of a promoted `lo..=hi` / `lo..hi` u8 range constant, else None"""
+    if const is None or "promoted" not in const:
+        return None
+    pr = fn.raw.get("promoted", [])
+    if const["promoted"] >= len(pr):
+        return None
+    body = pr[const["promoted"]]
+    for b_ in body["blocks"]:
+        t = b_.get("t") or {}
+        if t.get("k") == "call" and "RangeInclusive" in (t.get("callee", {}).get("path") or "") and len(t.get("args", [])) >= 2:
+            lo = const_int(t["args"][0])
+            hi = const_int(t["args"][1])
+            if lo is not None and hi is not None:
+                return lo, hi
+        for st in b_["s"]:
+            rv = st.get("rv", {})
+            if rv.get("k") == "agg" and "Range" in (rv.get("adt") or "") and len(rv["ops"]) >= 2:
+                lo = const_int(rv["ops"][0])
+                hi = const_int(rv["ops"][1])
+                if lo is not None and hi is not None:
+                    return (lo, hi) if "Inclusive" in rv["adt"] else (lo, hi - 1)
+    return None
+
+
 def byte_sets(prog, fpath):
-    """switches on a u8 in the function: [(bb, {byte values listed})] and the range pre-check constants"""
+    """the byte classifier of a function and its closures: u8 switches [(bb, {byte values listed})] and the range
+    pre-check window (lo, width).  Pre-check forms understood: `b.wrapping_sub(lo) <= w`, `(lo..=hi).contains(&b)`.
+    A u8 comparison of another form is reported as not understood (lo == "?")."""
     f = prog.fn(fpath)
     sets = []
-    for bb in sorted(f.reachable):
-        t = f.term(bb)
-        if t["k"] == "switch" and t["ty"] == "u8" and len(t["arms"]) >= 3:
-            sets.append((bb, {int(v) for v, _ in t["arms"]}))
     lo = width = None
-    for c in f.calls():
-        if c.name == "core::num::<impl u8>::wrapping_sub":
-            k = c.args[1].get("c", {}).get("int")
-            if k is not None:
-                lo = int(k)
-    for bb, i, s in f.all_stmts():
-        rv = s.get("rv", {})
-        if rv.get("k") == "bin" and rv["op"] in ("Le", "Lt") and rv.get("ty") == "u8":
-            k = const_eval(f, rv["b"])
-            if k is not None:
-                width = int(k) - (1 if rv["op"] == "Lt" else 0)
+    other_cmp = False
+    for g in [f] + prog.closures_of(fpath):
+        for bb in sorted(g.reachable):
+            t = g.term(bb)
+            if t["k"] == "switch" and t["ty"] == "u8" and len(t["arms"]) >= 3:
+                sets.append((bb, {int(v) for v, _ in t["arms"]}))
+        for c in g.calls():
+            if c.name == "core::num::<impl u8>::wrapping_sub":
+                k = c.args[1].get("c", {}).get("int")
+                if k is not None:
+                    lo = int(k)
+            if c.name.endswith("::contains") and "Range" in c.name:
+                r = None
+                for o in flow.origins(g, c.args[0]):
+                    if o.kind == "const":
+                        r = _promoted_range(g, o.const)
+                if r is None:
+                    other_cmp = True
+                else:
+                    lo, width = r[0], r[1] - r[0]
+        for bb, i, s in g.all_stmts():
+            rv = s.get("rv", {})
+            if rv.get("k") == "bin" and rv["op"] in ("Le", "Lt", "Ge", "Gt") and rv.get("ty") == "u8":
+                k = const_eval(g, rv["b"])
+                if k is not None and rv["op"] in ("Le", "Lt") and lo is not None:
+                    width = int(k) - (1 if rv["op"] == "Lt" else 0)
+                else:
+                    other_cmp = True
+    if other_cmp and (lo is None or width is None):
+        lo = "?"
     return f, sets, lo, width
 
 
@@ -465,9 +507,15 @@ def run(ctx):
            "needs_html_escaping returns false for strings containing %s, which HtmlEscape would escape: they are "
            "written raw" % [chr(b) for b in sorted(esc - need)], nf.loc)
     for nm, f, s, lo, w in (("needs_html_escaping", nf, need, nlo, nw), ("HtmlEscape", hf, esc, hlo, hw)):
-        ok = lo is not None and w is not None and all(lo <= b <= lo + w for b in s)
+        ctx.need(lo != "?", "C02.S5: %s compares bytes in a form the rule does not understand" % nm)
+        if lo is None:
+            ctx.count("C02.S5 byte classifiers without a range pre-check")
+            continue
+        ok = w is not None and all(lo <= b <= lo + w for b in s)
         ctx.ob("C02.S5.range-precheck-contains-all-bytes", nm, ok,
-               "range pre-check [%s, %s+%s] does not contain all of %s" % (lo, lo, w, sorted(s)), f.loc)
+               "the cheap range pre-check [%s, %s] does not contain all of the bytes the match lists (%s): %s never "
+               "reach the match and such strings are written unescaped" % (
+                   lo, lo + (w or 0), sorted(s), [chr(b) for b in sorted(s) if not (lo <= b <= lo + (w or 0))]), f.loc)
     # replacements
     for c in hf.calls():
         if c.name.endswith("Formatter<'_>::write_str") or c.name.endswith("fmt::Write>::write_str") or c.name.endswith("::write_str"):
